@@ -3,21 +3,23 @@
 # Confirms a seeded defect from /var/tmp/seed-out/<Cnn>: demo passes without the patch, fails with it,
 # the touched package's own tests still pass with the patch. On success copies it to /verif/seeded/<Cnn>/.
 set -u
+# cache guard: scratch builds can fill the disk
+[ "$(df --output=avail -BG / | tail -1 | tr -dc 0-9)" -lt 25 ] && go clean -cache
 ID=$1; PKG=$2; RUN=${3:-.}; shift; shift; [ $# -gt 0 ] && shift
-SRC=${SEED_SRC:-/var/tmp/seed-out}/$ID; DST=$ID${SEED_SUFFIX:-}; WT=/var/tmp/confirm-$$-$ID
+SRC=${SEED_SRC:-/var/tmp/seed-out}/$ID; DST=$ID${SEED_SUFFIX:-}; WT=/var/tmp/confirm-$ID
 export GOFLAGS=-mod=mod GOPROXY=off
 git -C /repo worktree add --detach "$WT" HEAD -q || exit 9
 trap 'git -C /repo worktree remove --force "$WT" >/dev/null 2>&1; rm -rf "$WT"' EXIT
 cp "$SRC/demo_test.go" "$WT/$PKG/zz_seed_demo_test.go"
 cd "$WT"
 echo "== demo WITHOUT patch (must pass)"
-go test -count=1 -run "$RUN" "./$PKG/" > "$SRC/confirm_without.txt" 2>&1; A=$?; tail -3 "$SRC/confirm_without.txt"
+go test -trimpath -count=1 -run "$RUN" "./$PKG/" > "$SRC/confirm_without.txt" 2>&1; A=$?; tail -3 "$SRC/confirm_without.txt"
 git apply "$SRC/patch.diff" || { echo "patch does not apply"; exit 8; }
 echo "== demo WITH patch (must fail)"
-go test -count=1 -run "$RUN" "./$PKG/" > "$SRC/confirm_with.txt" 2>&1; B=$?; tail -5 "$SRC/confirm_with.txt"
+go test -trimpath -count=1 -run "$RUN" "./$PKG/" > "$SRC/confirm_with.txt" 2>&1; B=$?; tail -5 "$SRC/confirm_with.txt"
 rm "$WT/$PKG/zz_seed_demo_test.go"
 echo "== existing tests WITH patch (must pass)"
-go test -count=1 "./$PKG/..." "$@" >> "$SRC/confirm_tests.txt" 2>&1; C=$?; tail -4 "$SRC/confirm_tests.txt"
+go test -trimpath -count=1 "./$PKG/..." "$@" >> "$SRC/confirm_tests.txt" 2>&1; C=$?; tail -4 "$SRC/confirm_tests.txt"
 echo "without=$A with=$B tests=$C"
 if [ $A -eq 0 ] && [ $B -ne 0 ] && [ $C -eq 0 ]; then
   mkdir -p /verif/seeded/$DST && cp "$SRC/patch.diff" "$SRC/demo_test.go" "$SRC/meta.json" /verif/seeded/$DST/
